@@ -20,7 +20,7 @@ import traceback
 
 from . import REPO_ROOT, VERIF_ROOT
 
-RUN_TIMEOUT_S = float(os.environ.get("QSIM_RUN_TIMEOUT", "300"))
+RUN_TIMEOUT_S = float(os.environ.get("QSIM_RUN_TIMEOUT", "900"))
 NWORKERS = int(os.environ.get("QSIM_WORKERS", str(os.cpu_count() or 4)))
 
 _WORLD = None
